@@ -27,3 +27,24 @@ PROPS["C10"] = {
                 "proof protobuf decoding (ProofFromProto only copies fields and calls ValidateBasic)"],
     "timeout_quick": 420, "timeout_thorough": 2400,
 }
+
+PROPS["C07"] = {
+    "files": ["types/validator_set.go", "types/block.go", "types/vote.go", "types/canonical.go", "libs/math/fraction.go"],
+    "groups": [
+        {"dir": "types",
+         "quick": ["VP_C07_Verify_n1", "VP_C07_Verify_n2", "VP_C07_Verify_n2_extra", "VP_C07_Trusting_n1_m1", "VP_C07_Trusting_n2_m1",
+                   "VP_C07_TrustLevelGuards", "VP_C07_SignBytesInjective_small"],
+         "thorough": ["VP_C07_Verify_n3", "VP_C07_Trusting_n2_m2", "VP_C07_Trusting_n3_m2", "VP_C07_SignBytesInjective_full"]},
+    ],
+    "bounds": {
+        "validators": "n = 1..2 (thorough 3) validators with fully symbolic 64-bit powers (1 <= p, sum <= MaxTotalVotingPower, so totals near 2^60 are inside); real ed25519 keys",
+        "commit slots": "per slot: symbolic flag in {absent, commit, nil}; signature = genuine over the exact canonical precommit | genuine by another validator's key | junk | (one designated slot) genuine over a message differing in exactly one bound field: chain id, height, round, block hash, part-set header, vote type, timestamp, nil-vs-block",
+        "arguments": "height / block id argument equal to or different from the commit's; commit one slot longer than the set",
+        "trusting": "trusted set of m = 1..2 members, each one of the signers or a stranger, symbolic powers; slot addresses pointing at any member or a stranger (same signer in two slots included); trust levels 1/3, 2/3, 1/1, 1/2, 0/1; symbolic numerator <= 2^62 and denominator <= 8 for the guards",
+        "sign bytes": "two votes with symbolic type, height, round, block hash bytes, part-set total, timestamp seconds < 2^35, chain id from 3 strings: equal sign bytes imply equal bound fields",
+    },
+    "stubs": ["ed25519 = ideal signature oracle keyed on the real sign bytes (natively: real ed25519)", "sha256 concrete (addresses)"],
+    "outside": ["n > 3 validators / m > 2 trusted members", "arbitrary symbolic trust fractions beyond the guard harness (symbolic x symbolic multiply)", "batch verification (absent in this version)"],
+    "engine_flags": ["-qtimeout", "2500"],
+    "timeout_quick": 420, "timeout_thorough": 3000,
+}
